@@ -15,6 +15,7 @@ struct Case {
     int flags = 0;        // bit0 LAZY, bit1 DETACHED
     int wait_all = 1;
     int spurious = 0;     // percent of scheduling points that try a spurious wake-up
+    int backlog = 0;      // > 0: the freeing thread first submits a task that stays in progress until the freeing thread waits inside m_thpool_free, then this many more tasks: a deep queue at shutdown
     int prior = -1;       // >= 0: flags of a one-thread pool that lives (one task, free with wait_all) in the same process before the pool under test
     std::vector<std::vector<int>> subs; // per submitter: op codes
     std::vector<int> main_ops;          // ops by the freeing thread before free (1 length, 2 clear, 0 add)
@@ -23,7 +24,7 @@ struct Case {
 
 static std::string to_text(const Case &c) {
     std::ostringstream o;
-    o << "pool1\nthreads " << c.threads << "\nflags " << c.flags << "\nwait_all " << c.wait_all << "\nspurious " << c.spurious << "\n"; if (c.prior >= 0) o << "prior " << c.prior << "\n";
+    o << "pool1\nthreads " << c.threads << "\nflags " << c.flags << "\nwait_all " << c.wait_all << "\nspurious " << c.spurious << "\n"; if (c.prior >= 0) o << "prior " << c.prior << "\n"; if (c.backlog) o << "backlog " << c.backlog << "\n";
     for (auto &s : c.subs) { o << "op sub"; for (int x : s) o << " " << x; o << "\n"; }
     o << "op main"; for (int x : c.main_ops) o << " " << x; o << "\n";
     o << "op choices"; for (unsigned char x : c.choices) o << " " << (int)x; o << "\n";
@@ -33,7 +34,7 @@ static bool from_text(const std::string &s, Case &c) {
     cio::Text t;
     if (!cio::parse(s, t) || t.magic != "pool1") return false;
     c = Case();
-    c.threads = cio::hdr_long(t, "threads", 2); c.flags = cio::hdr_long(t, "flags", 0); c.wait_all = cio::hdr_long(t, "wait_all", 1); c.spurious = cio::hdr_long(t, "spurious", 0); c.prior = cio::hdr_long(t, "prior", -1);
+    c.threads = cio::hdr_long(t, "threads", 2); c.flags = cio::hdr_long(t, "flags", 0); c.wait_all = cio::hdr_long(t, "wait_all", 1); c.spurious = cio::hdr_long(t, "spurious", 0); c.prior = cio::hdr_long(t, "prior", -1); c.backlog = cio::hdr_long(t, "backlog", 0);
     for (auto &o : t.ops) {
         if (o.first == "sub") { std::vector<int> v(o.second.begin(), o.second.end()); c.subs.push_back(v); }
         else if (o.first == "main") c.main_ops.assign(o.second.begin(), o.second.end());
@@ -55,6 +56,7 @@ static bool free_returned;
 static int begun_at_free[64], ended_at_free[64];
 static int clear_calls_returned;
 
+static bool free_called, shutdown_waiting; static int gate_cell = -1;
 static void *task(void *arg) {
     Cell *c = (Cell *)arg;
     if (c < cells || c >= cells + 64 || c->id != (int)(c - cells)) { g_v.fail("C06.1", "task received an argument that is not the one it was submitted with"); return nullptr; }
@@ -65,7 +67,15 @@ static void *task(void *arg) {
     if (in_progress > max_in_progress) max_in_progress = in_progress;
     if (in_progress > pool_threads) g_v.fail("C06.2", std::to_string(in_progress) + " tasks in progress at once in a pool of " + std::to_string(pool_threads) + " threads");
     if (free_returned && begun_at_free[c->id] == 0 && !g_case->wait_all) g_v.fail("C06.4", "task " + std::to_string(c->id) + " had not started when m_thpool_free(wait_all=false) returned, yet it ran afterwards");
+    // once the freeing thread waits inside m_thpool_free(wait_all=false) the shutdown has been requested: only tasks already in progress may go on
+    if (shutdown_waiting && !g_case->wait_all && !free_returned) g_v.fail("C06.4", "task " + std::to_string(c->id) + " was started after m_thpool_free(wait_all=false) had requested the shutdown and was waiting for the task in progress: tasks that had not started must be discarded");
     sched::yield_point("tb");
+    if (c->id == gate_cell) {
+        // the gate task stays in progress until the freeing thread is parked inside m_thpool_free
+        long spins = 0;
+        while (!(free_called && sched::main_waiting()) && ++spins < 20000) sched::yield_point("tg");
+        if (free_called && sched::main_waiting()) shutdown_waiting = true;
+    }
     sched::yield_point("tm");
     c->ended++;
     in_progress--;
@@ -112,6 +122,7 @@ static void finish(const char *stuck) {
     if (R.spurious) v.classes.push_back("spurious-wakeup");
     if (R.preemptions) v.classes.push_back("preempted");
     if (clear_calls_returned) v.classes.push_back("clear-used");
+    if (g_case->backlog) v.classes.push_back(shutdown_waiting ? "deep-backlog-at-shutdown" : "deep-backlog");
     // distinctness of schedules: encode the executed trace hash into a class-free channel (message for ok cases)
     if (v.ok) { char b[32]; snprintf(b, sizeof b, "%016llx", (unsigned long long)R.trace_hash); v.message = b; }
     rt::child_finish(v);
@@ -127,9 +138,9 @@ static rt::Verdict run_case(const Case &c, const rt::Args &) {
     sched::on_stuck = stuck_hook;
     // assign task ids up front (program order per thread)
     std::vector<SubArg> subs(c.subs.size());
-    for (size_t s = 0; s < c.subs.size(); s++) { subs[s].idx = (int)s; for (int code : c.subs[s]) { int id = -1; if (code == 0 && ncells < 60) id = ncells++; if (code != 0 || id >= 0) subs[s].ops.push_back({code, id}); } }
+    for (size_t s = 0; s < c.subs.size(); s++) { subs[s].idx = (int)s; for (int code : c.subs[s]) { int id = -1; if (code == 0 && ncells < (c.backlog ? 4 : 60)) id = ncells++; if (code != 0 || id >= 0) subs[s].ops.push_back({code, id}); } }
     std::vector<std::pair<int, int>> main_ops;
-    for (int code : c.main_ops) { int id = -1; if (code == 0 && ncells < 60) id = ncells++; if (code != 0 || id >= 0) main_ops.push_back({code, id}); }
+    for (int code : c.main_ops) { int id = -1; if (code == 0 && ncells < (c.backlog ? 5 : 60)) id = ncells++; if (code != 0 || id >= 0) main_ops.push_back({code, id}); }
 
     sched::start(c.choices, c.spurious);
     int warm_workers = 0;
@@ -147,10 +158,18 @@ static rt::Verdict run_case(const Case &c, const rt::Args &) {
     int fl = ((c.flags & 1) ? M_THPOOL_LAZY : 0) | ((c.flags & 2) ? M_THPOOL_DETACHED : 0);
     pool = m_thpool_new((uint8_t)c.threads, (m_thpool_flags)fl);
     if (!pool) { g_v.fail("C06.8", "m_thpool_new returned NULL"); finish(nullptr); }
+    free_called = shutdown_waiting = false; gate_cell = -1;
+    if (c.backlog > 0) {
+        std::vector<std::pair<int, int>> pre;
+        gate_cell = ncells; pre.push_back({0, ncells++});
+        for (int i = 0; i < c.backlog && ncells < 62; i++) pre.push_back({0, ncells++});
+        do_sub_ops(pre);
+    }
     std::vector<int> ids;
     for (auto &s : subs) ids.push_back(sched::spawn_thread(submitter, &s, sched::ROLE_SUBMITTER));
     for (int id : ids) sched::join_thread(id);   // the freeing thread frees only after every submitter returned from its calls
     do_sub_ops(main_ops);
+    free_called = true;
     int r = m_thpool_free(&pool, c.wait_all != 0);
     free_returned = true;
     for (int i = 0; i < ncells; i++) { begun_at_free[i] = cells[i].begun; ended_at_free[i] = cells[i].ended; }
@@ -181,11 +200,11 @@ static rt::Verdict run_case(const Case &c, const rt::Args &) {
 static rc::Gen<Case> gen_case(const rt::Args &) {
     using namespace rc;
     auto subops = gens::vec<int>(0, 4, gens::weighted_values<int>({{8, 0}, {1, 1}, {1, 2}}));
-    return gen::map(gen::tuple(gens::range(1, 5), gen::map(gen::pair(gens::range(0, 4), gens::weighted_values<int>({{6, -1}, {1, 0}, {1, 1}, {2, 2}, {1, 3}})), [](std::pair<int, int> p) { return p.first + 8 * (p.second + 1); }), gens::range(0, 2), gens::weighted_values<int>({{3, 0}, {2, 5}, {1, 20}}),
+    return gen::map(gen::tuple(gens::range(1, 5), gen::map(gen::pair(gens::range(0, 4), gens::weighted_values<int>({{6, -1}, {1, 0}, {1, 1}, {2, 2}, {1, 3}})), [](std::pair<int, int> p) { return p.first + 8 * (p.second + 1); }), gen::map(gen::pair(gens::range(0, 2), gens::weighted_values<int>({{12, 0}, {1, 33}, {1, 40}, {1, 56}})), [](std::pair<int, int> p) { return p.first + 2 * p.second; }), gens::weighted_values<int>({{3, 0}, {2, 5}, {1, 20}}),
                                gens::vec<std::vector<int>>(1, 3, subops), gens::vec<int>(0, 2, gens::weighted_values<int>({{3, 0}, {1, 1}, {1, 2}})),
                                gen::resize(100, gen::container<std::vector<unsigned char>>(gen::arbitrary<unsigned char>()))),
                     [](std::tuple<int, int, int, int, std::vector<std::vector<int>>, std::vector<int>, std::vector<unsigned char>> t) {
-                        Case c; c.threads = std::get<0>(t); c.flags = std::get<1>(t) % 8; c.prior = std::get<1>(t) / 8 - 1; c.wait_all = std::get<2>(t); c.spurious = std::get<3>(t);
+                        Case c; c.threads = std::get<0>(t); c.flags = std::get<1>(t) % 8; c.prior = std::get<1>(t) / 8 - 1; c.wait_all = std::get<2>(t) % 2; c.backlog = std::get<2>(t) / 2; if (c.backlog && c.threads > 2) c.threads = 1; c.spurious = std::get<3>(t);
                         c.subs = std::get<4>(t); c.main_ops = std::get<5>(t); c.choices = std::get<6>(t);
                         if (c.choices.size() > 300) c.choices.resize(300);
                         return c;
